@@ -101,9 +101,12 @@ where
     /// retire the connection IDs of the sequence in [`RetireConnectionIdFrame`].
     fn recv_retire_cid_frame(&mut self, frame: RetireConnectionIdFrame) -> Result<(), Error> {
         let seq = frame.sequence();
+        // Receipt of a RETIRE_CONNECTION_ID frame containing a sequence number greater than any
+        // previously sent to the peer MUST be treated as a connection error of type PROTOCOL_VIOLATION.
+        // See [Section 19.16](https://www.rfc-editor.org/rfc/rfc9000.html#section-19.16-7)
         if seq >= self.cid_deque.largest() {
             return Err(QuicError::new(
-                ErrorKind::ConnectionIdLimit,
+                ErrorKind::ProtocolViolation,
                 frame.frame_type().into(),
                 format!(
                     "Sequence({seq}) in RetireConnectionIdFrame exceeds the largest one({}) issued by us",
